@@ -81,6 +81,15 @@ theorem cinv_block (fs : Fs Edit) (sofar : List Edit) (c : Client Edit) (h : CIn
     simp only [List.append_assoc, List.cons_append, List.nil_append]
     apply chainOk_snoc_link bs d _ hc
     simp only [List.head?_cons, rollupOf, hs]
+  | editRoll e =>
+    simp only [block, run, List.foldl_cons, List.foldl_nil, step, Option.map_some, List.nil_append,
+      List.append_nil, sofarAfter]
+    have hse : replay maniAlgebra (d ++ [e]) = replay maniAlgebra (sofar ++ [e]) := by
+      simp only [replay_snoc, hs]
+    refine ⟨rfl, replay_rollup (sofar ++ [e]), ?_, Or.inr (by simp), rfl⟩
+    simp only [List.append_assoc, List.cons_append, List.nil_append]
+    apply chainOk_snoc_link bs (d ++ [e]) _ (chainOk_snoc_extend bs d [e] hc hne)
+    simp only [List.head?_cons, rollupOf, hse]
 
 theorem cinv_run : ∀ (h : List (Client Edit)) (fs : Fs Edit) (sofar : List Edit), CInv fs sofar →
     CInv (run fs (opsOf maniAlgebra h sofar)) (sofar ++ editsOf h)
@@ -185,6 +194,41 @@ theorem chain_crash_aux : ∀ (h : List (Client Edit)) (fs : Fs Edit) (sofar : L
         · simp only [block, List.take, run, List.foldl_cons, List.foldl_nil, step, crashA, crashB,
             List.nil_append, List.append_nil]
           exact ⟨good_L d _ bs hc, good_L d _ bs hc⟩
+        · omega
+      | editRoll e =>
+        have hlen : (block maniAlgebra sofar (Client.editRoll e)).length = 8 := rfl
+        rw [hlen] at hn
+        have hce := chainOk_snoc_extend bs d [e] hc hne
+        have hse : replay maniAlgebra (d ++ [e]) = replay maniAlgebra (sofar ++ [e]) := by
+          simp only [replay_snoc, hs]
+        have hcr : chainOk ((bs ++ [d ++ [e]]) ++ [[rollupOf (sofar ++ [e])]]) = true := by
+          simp only [List.append_assoc, List.cons_append, List.nil_append]
+          apply chainOk_snoc_link bs (d ++ [e]) _ hce
+          simp only [List.head?_cons, rollupOf, hse]
+        rcases n with _ | _ | _ | _ | _ | _ | _ | _ | n
+        · simp only [List.take_zero, run, List.foldl_nil, crashA, crashB, List.append_nil]
+          exact ⟨good_U d _ bs hc, good_U d _ bs hc⟩
+        · simp only [block, List.take, run, List.foldl_cons, List.foldl_nil, step, crashA, crashB,
+            List.nil_append, List.append_nil]
+          exact ⟨good_U (d ++ [e]) _ bs hce, good_U d _ bs hc⟩
+        · simp only [block, List.take, run, List.foldl_cons, List.foldl_nil, step, crashA, crashB,
+            List.nil_append, List.append_nil]
+          exact ⟨good_U (d ++ [e]) _ bs hce, good_U (d ++ [e]) _ bs hce⟩
+        · simp only [block, List.take, run, List.foldl_cons, List.foldl_nil, step, crashA, crashB,
+            List.nil_append, List.append_nil, Option.map_some]
+          exact ⟨good_L (d ++ [e]) _ bs hce, good_L (d ++ [e]) _ bs hce⟩
+        · simp only [block, List.take, run, List.foldl_cons, List.foldl_nil, step, crashA, crashB,
+            List.nil_append, List.append_nil, Option.map_some]
+          exact ⟨good_L (d ++ [e]) _ bs hce, good_L (d ++ [e]) _ bs hce⟩
+        · simp only [block, List.take, run, List.foldl_cons, List.foldl_nil, step, crashA, crashB,
+            List.nil_append, List.append_nil, Option.map_some]
+          exact ⟨good_L (d ++ [e]) _ bs hce, good_L (d ++ [e]) _ bs hce⟩
+        · simp only [block, List.take, run, List.foldl_cons, List.foldl_nil, step, crashA, crashB,
+            List.nil_append, List.append_nil, Option.map_some]
+          exact ⟨good_L (d ++ [e]) _ bs hce, good_L (d ++ [e]) _ bs hce⟩
+        · simp only [block, List.take, run, List.foldl_cons, List.foldl_nil, step, crashA, crashB,
+            List.nil_append, List.append_nil, Option.map_some]
+          exact ⟨good_U [rollupOf (sofar ++ [e])] _ (bs ++ [d ++ [e]]) hcr, good_U [rollupOf (sofar ++ [e])] _ (bs ++ [d ++ [e]]) hcr⟩
         · omega
     · have htake : (block maniAlgebra sofar c).take n = block maniAlgebra sofar c :=
         List.take_of_length_le hn
